@@ -2,7 +2,7 @@
    ONLY statements: each theorem is closed by `exact` of a lemma proved elsewhere and followed by Print Assumptions. *)
 From Coq Require Import ZArith NArith List Bool Lia Permutation SpecFloat.
 Import ListNotations.
-Require Import Base Float Strings Builtins Interp Machine Spec Refine2 RunG Order LinkArith Arith LinkKinds Eq Complex.
+Require Import Base Float Strings Builtins Interp Machine Spec Refine2 RunG Order Arith PowBool LinkArith LinkKinds Eq Complex.
 Open Scope Z_scope.
 (* ㅈ decides the order of the EXACT values of finite reals - integers of any size, doubles in canonical form, mixed freely (sval = value * 2^1074, an integer) *)
 Theorem lt_is_value_order a b :
@@ -33,6 +33,50 @@ Theorem bi_lt_is_lt_val (rec:list positive -> heap -> world -> task -> out) sp a
   runG rec value ip h w (bi_lt sp [a; b]) = DoneG h w (inl (VBool (lt_val a b))) 0.
 Proof. exact (Order.bi_lt_is_lt_val rec sp a b ip h w). Qed.
 Print Assumptions bi_lt_is_lt_val.
+
+(* an integer power with a non-negative exponent stays an exact integer, of any size *)
+Theorem int_pow_exact (rec : list positive -> heap -> world -> task -> out) sp b e ip h w :
+  0 <= e -> runG rec value ip h w (bi_pow sp [VInt b; VInt e]) = DoneG h w (inl (VInt (b ^ e))) 0.
+Proof. exact (PowBool.int_pow_exact rec sp b e ip h w). Qed.
+Print Assumptions int_pow_exact.
+
+(* three-argument ㅅ, exponent >= 0: the residue of the TRUE power, in [0, |m|) for a modulus of either sign *)
+Theorem pow_mod_residue (rec : list positive -> heap -> world -> task -> out) sp b e m ip h w :
+  0 <= e -> m <> 0 ->
+  runG rec value ip h w (bi_pow sp [VInt b; VInt e; VInt m]) = DoneG h w (inl (VInt ((b ^ e) mod Z.abs m))) 0 /\ 0 <= (b ^ e) mod Z.abs m < Z.abs m.
+Proof. exact (PowBool.pow_mod_residue rec sp b e m ip h w). Qed.
+Print Assumptions pow_mod_residue.
+
+(* exponent < 0: the residue of the power of the modular inverse, in [0, |m|), and it undoes the power *)
+Theorem pow_mod_inverse (rec : list positive -> heap -> world -> task -> out) sp b e m i ip h w :
+  e < 0 -> m <> 0 -> modinv b (Z.abs m) = Some i ->
+  runG rec value ip h w (bi_pow sp [VInt b; VInt e; VInt m]) = DoneG h w (inl (VInt ((i ^ (- e)) mod Z.abs m))) 0
+  /\ 0 <= (i ^ (- e)) mod Z.abs m < Z.abs m /\ (((i ^ (- e)) mod Z.abs m) * b ^ (- e)) mod Z.abs m = 1 mod Z.abs m.
+Proof. exact (PowBool.pow_mod_inverse rec sp b e m i ip h w). Qed.
+Print Assumptions pow_mod_inverse.
+
+Theorem pow_mod_no_inverse (rec : list positive -> heap -> world -> task -> out) sp b e m ip h w :
+  e < 0 -> m <> 0 -> modinv b (Z.abs m) = None ->
+  runG rec value ip h w (bi_pow sp [VInt b; VInt e; VInt m]) = DoneG h w (inr (mkerr c_arith sp)) 0.
+Proof. exact (PowBool.pow_mod_no_inverse rec sp b e m ip h w). Qed.
+Print Assumptions pow_mod_no_inverse.
+
+Theorem pow_mod_zero_modulus (rec : list positive -> heap -> world -> task -> out) sp b e ip h w :
+  runG rec value ip h w (bi_pow sp [VInt b; VInt e; VInt 0]) = DoneG h w (inr (mkerr c_arith sp)) 0.
+Proof. exact (PowBool.pow_mod_zero_modulus rec sp b e ip h w). Qed.
+Print Assumptions pow_mod_zero_modulus.
+
+(* Boolean ㄱ is conjunction, for any number of operands *)
+Theorem bool_and_is_conjunction (rec : list positive -> heap -> world -> task -> out) sp b bs ip h w :
+  runG rec value ip h w (bi_multiply sp (map VBool (b :: bs))) = DoneG h w (inl (VBool (forallb (fun x => x) (b :: bs)))) 0.
+Proof. exact (PowBool.bool_and_is_conjunction rec sp b bs ip h w). Qed.
+Print Assumptions bool_and_is_conjunction.
+
+(* Boolean ㄷ is disjunction *)
+Theorem bool_or_is_disjunction (rec : list positive -> heap -> world -> task -> out) sp b bs ip h w :
+  runG rec value ip h w (bi_add sp (map VBool (b :: bs))) = DoneG h w (inl (VBool (existsb (fun x => x) (b :: bs)))) 0.
+Proof. exact (PowBool.bool_or_is_disjunction rec sp b bs ip h w). Qed.
+Print Assumptions bool_or_is_disjunction.
 
 (* about the kernel REGENERATED from arithmetics.py *)
 Theorem int_div_is_quot a d :
